@@ -76,6 +76,7 @@ def printed(block):
     '''what a result block prints: {(response_index, score_index): {'groups': [(e_lo, e_hi, score, sigma)], 'integrated': [(score, sigma)]}}'''
     tags = {}
     ri, si = -1, -1
+    last_group_score = None
     for ln in block.split('\n'):
         if ln.startswith('RESPONSE FUNCTION :'):
             ri += 1
@@ -86,10 +87,13 @@ def printed(block):
         if m:
             e1, e2, sc, sg = (float(m.group(n)) for n in (1, 2, 3, 4))
             tags.setdefault((ri, si), {'groups': [], 'integrated': []})['groups'].append((min(e1, e2), max(e1, e2), sc, sg))
+            last_group_score = ((ri, si), sc)
             continue
         m = INTEG.match(ln)
         if m:
-            tags.setdefault((ri, si), {'groups': [], 'integrated': []})['integrated'].append((float(m.group(2)), float(m.group(3))))
+            # the integrated result closes the table printed just before it (same response / zone): remember one score of that table as an anchor
+            anchor = last_group_score[1] if last_group_score is not None and last_group_score[0] == (ri, si) else None
+            tags.setdefault((ri, si), {'groups': [], 'integrated': []})['integrated'].append((float(m.group(2)), float(m.group(3)), anchor))
     return tags
 
 
@@ -145,7 +149,7 @@ def check_edition(res, block):
                 ncells = int(np.count_nonzero(~np.isnan(d.value)))
                 if ncells != hit_count[id(d)]:
                     probs.append(f'{key}: {hit_count[id(d)]} printed group line(s) were read into a spectrum of {ncells} filled cell(s)')
-        for (sc, sg) in pr['integrated']:
+        for (sc, sg, anchor) in pr['integrated']:
             nchecked += 1
             cands = [d for it in its if isinstance(it.get('results'), dict) for k3, d in it['results'].items() if isinstance(d, Dataset) and 'integrated' in k3]
             if not cands:
@@ -155,6 +159,17 @@ def check_edition(res, block):
                 probs.append(f'{key}: the integrated score {sc!r} is found {len(ok)} time(s) as score_integrated of that response / zone ({[np.ravel(d.value).tolist() for d in cands][:3]})')
             elif not np.isclose(float(ok[0].error[ok[0].value == sc][0]), sc * sg * 0.01, rtol=1e-12, atol=0.0):
                 probs.append(f'{key}: integrated error {float(ok[0].error[ok[0].value == sc][0])!r} for score {sc!r}, sigma {sg!r} %')
+            elif anchor is not None and ok[0].value.ndim == 7:
+                # the integrated result of a time / angle step sits on the bin of the table it closes (every dimension but the energy)
+                pos_i = tuple(int(x[0]) for x in np.where(ok[0].value == sc))
+                where = [(d, tuple(int(x[0]) for x in np.where(d.value == anchor))) for d in dss if int(np.count_nonzero(d.value == anchor)) == 1]
+                if where:
+                    d, pos_a = where[0]
+                    for dim in (0, 1, 2, 4, 5, 6):
+                        if ok[0].value.shape[dim] > 1 and d.value.shape[dim] == ok[0].value.shape[dim] and pos_i[dim] != pos_a[dim]:
+                            names = list(d.bins)
+                            probs.append(f'{key}: the integrated result {sc!r} printed after the table of bin {pos_a[dim]} along {names[dim]!r} is attached to bin {pos_i[dim]}')
+                            break
         if len(probs) > 6:
             break
     return probs, nchecked, known
